@@ -42,6 +42,8 @@ func main() {
 
 var r *mon.Run
 
+var nClosedMid int64
+
 var (
 	nHist, nSends, nFailed, nLost, nResent, nSnapshots, nInbound int64
 	lostCounts                                                  = map[string]int64{}
@@ -376,12 +378,45 @@ func concurrent(seed int64, retain uint, G, per int) {
 		}
 		atomic.AddInt64(&nSnapshots, 1)
 	}
+	closedEarly := seed%3 == 2
+	if closedEarly {
+		// Close at a random point of the history: every Send must still return (with
+		// an error once the socket is closed) and Inbound must close
+		time.Sleep(time.Duration(rng.Intn(300)) * time.Microsecond)
+		rt.Close()
+		select {
+		case _, ok := <-rt.Inbound():
+			if ok {
+				r.Violate("inbound.not-closed", attrs, map[string]interface{}{"history": sig}, "[%s] a message appeared on Inbound after Close although none was received", sig)
+			}
+		case <-time.After(5 * time.Second):
+			r.Violate("inbound.not-closed", attrs, map[string]interface{}{"history": sig}, "[%s] Inbound was not closed within 5 s after Close in the middle of a history", sig)
+			return
+		}
+	}
 	done := make(chan struct{})
 	go func() { wg.Wait(); close(done) }()
 	select {
 	case <-done:
 	case <-time.After(30 * time.Second):
 		r.Violate("send.deadlock", attrs, map[string]interface{}{"history": sig, "goroutines": clip(mon.LibGoroutines("knx-go/knx."))}, "[%s] concurrent Sends did not all return", sig)
+		return
+	}
+	if closedEarly {
+		pr := make(chan error, 1)
+		go func() { pr <- rt.Send(gateway.Ind(9999998)) }()
+		select {
+		case err := <-pr:
+			if err == nil {
+				r.Violate("send.after-close", attrs, map[string]interface{}{"history": sig}, "[%s] Send after Close reported success", sig)
+			}
+		case <-time.After(10 * time.Second):
+			r.Violate("send.deadlock", attrs, map[string]interface{}{"history": sig}, "[%s] Send after Close did not return", sig)
+		}
+		atomic.AddInt64(&nHist, 1)
+		atomic.AddInt64(&nClosedMid, 1)
+		r.Eval(1)
+		r.DistinctStr(sig + " closed-mid-way")
 		return
 	}
 	// resend goroutines: wait until the wire has been quiet for 20 ms (bounded)
@@ -722,6 +757,7 @@ func run(rr *mon.Run) {
 		strand(r.Seed()*9300, r.Pick(30000, 600000))
 	}
 	r.Observe("histories_completed", nHist)
+	r.Observe("concurrent_histories_closed_mid_way", nClosedMid)
 	r.Observe("sends", nSends)
 	r.Observe("failing_sends", nFailed)
 	r.Observe("lost_indications", nLost)
